@@ -162,7 +162,8 @@ impl<'a> Sim<'a> {
         };
         match case_layer {
             Layer::Bare => {
-                sim.bare = Some(UistV1::new());
+                // both public ways to build an exchange
+                sim.bare = Some(if datasets[0].dates.len() % 2 == 0 { UistV1::new() } else { UistV1::default() });
                 sim.bts.push(BtInfo { id: 0, ds: 0, k: 0, owner: 0, last_has_next: true, aliased: false });
                 sim.trackers.push(ExTracker::new(false));
                 sim.scripts.push((vec![], vec![]));
@@ -922,6 +923,7 @@ struct GenCfg {
     resubmit_p: f64,
     mass_create: bool,
     giant_burst: bool,
+    huge: bool,
     preset_id_p: f64,
     unknown_symbol_p: f64,
 }
@@ -1022,6 +1024,7 @@ impl Gen {
             resubmit_p: *c.pick(&[0.0, 0.05, 0.2]),
             mass_create: focus == "C08" && c.one_in(if thorough { 40 } else { 400 }),
             giant_burst: c.one_in(if thorough { 60 } else { 400 }),
+            huge: big || thorough,
             preset_id_p: *c.pick(&[0.0, 0.0, 0.1]),
             unknown_symbol_p: *c.pick(&[0.0, 0.03]),
         };
@@ -1096,7 +1099,7 @@ impl Gen {
             let live: Vec<usize> = (0..sim.bts.len()).filter(|h| !sim.bts[*h].aliased).collect();
             if let Some(&h) = live.first() {
                 sim.ctx.bump("f12_giant_bursts");
-                let saved = std::mem::replace(&mut self.cfg.burst_sizes, &[4100, 4500, 5000]);
+                let saved = std::mem::replace(&mut self.cfg.burst_sizes, if self.cfg.huge { &[4100, 8200, 10100] } else { &[4100, 4500, 5000] });
                 let owner = sim.bts[h].owner;
                 self.burst(sim, owner, h);
                 self.cfg.burst_sizes = saved;
@@ -1258,7 +1261,7 @@ pub fn unknown_name(rng: &mut Rng, datasets: &[DatasetSpec]) -> String {
         base.to_uppercase(),
         base.to_lowercase(),
         format!("{base}x"),
-        base[..base.len().saturating_sub(1).max(1)].to_string(),
+        base.chars().take(base.chars().count().saturating_sub(1).max(1)).collect::<String>(),
         "Random".to_string(),
     ];
     let mut pick = rng.pick(&cands).clone();
@@ -1313,7 +1316,7 @@ impl Engine for E1U {
         }
         let mut st = WorldStats::default();
         let nds = if layer == Layer::Server && !single { w.range(1, 3) as usize } else { 1 };
-        let names = ["fake", "Fake", "RANDOM"]; // two registered names differ only in case
+        let names = ["fake", "Fake", "BTC/USDT+100% ü"]; // case twins; a name that must be percent-encoded in a URL // two registered names differ only in case
         let datasets: Vec<DatasetSpec> = (0..nds).map(|i| gen_dataset(&mut w, names[i], &cfg, &mut st)).collect();
 
         let mut gen = Gen::new(seed, tier, focus);
